@@ -184,7 +184,7 @@ def _has_two_closures(L, goal, hyps=()):
     return L.k is None and len(_goal_closures(L, goal, hyps)) >= 2
 
 
-CUT_DEADLINE_S = {"quick": 25.0, "thorough": 900.0}
+CUT_DEADLINE_S = {"quick": 12.0, "thorough": 900.0}
 TIER = os.environ.get("Y0VC_TIER", "quick")
 
 
